@@ -157,3 +157,40 @@ func callerTransportsNotMutated(c *Ctx, rule string) {
 		c.Undecided("%s: no use of config.Transports found in dial", rule)
 	}
 }
+
+// F55 (C05-D12): a socket that is not connected yet sends nothing but CONNECT — neither DISCONNECT (repaired) nor events
+// (known finding F56).
+func pendingSocketSendsNothing(c *Ctx, rule string) {
+	p := c.P
+	// (a) Disconnect sends the DISCONNECT packet only when connected
+	fn := p.Fn("sio", "clientSocket.Disconnect")
+	for _, cs := range CallsTo(Calls(fn), `\(\*sio\.clientSocket\)\.sendControlPacket`) {
+		okG := false
+		for _, g := range Guards(cs.Instr) {
+			t := Term(g.Cond)
+			if strings.HasSuffix(t, ".Connected()") && g.Val {
+				okG = true
+			}
+		}
+		c.Ob(rule, "sio.clientSocket.Disconnect/disconnect-packet-only-when-connected", cs.Pos(), okG, fmt.Sprintf("the DISCONNECT packet is sent under %v, i.e. also while the CONNECT is pending: the server has no socket for the namespace yet, takes the packet for an invalid state and closes the whole connection — every other namespace of this client goes down with it", GuardTerms(cs.Instr)))
+	}
+	// (b) events are sent at once only when connected
+	sb := p.Fn("sio", "clientSocket._sendBuffers")
+	n := 0
+	for _, b := range sb.Blocks {
+		for _, in := range b.Instrs {
+			bo, ok := in.(*ssa.BinOp)
+			if !ok || bo.Op != token.EQL || !strings.HasSuffix(Term(bo.X), ".state") {
+				continue
+			}
+			pend := p.ConstVal("sio", "clientSocketConnStateConnectPending")
+			if t := Term(bo.Y); t == pend || strings.HasPrefix(t, pend+":") {
+				n++
+				c.Ob(rule, "sio.clientSocket._sendBuffers/no-send-while-connect-pending", bo.Pos(), false, "_sendBuffers treats the connect-pending state like connected and sends the packet at once: the CONNECT packet itself goes out from another goroutine, so the event reaches the server before a socket for the namespace exists — the server closes the whole connection and the event is lost (the reference buffers until connected)")
+			}
+		}
+	}
+	if n == 0 {
+		c.Ob(rule, "sio.clientSocket._sendBuffers/no-send-while-connect-pending", sb.Pos(), true, "the connect-pending state is not treated as connected")
+	}
+}
